@@ -18,7 +18,6 @@ Results are returned as Coq terms of Pipeline.presult / pevent so that the compa
 import contextlib
 import io
 import json
-import logging
 import os
 import re
 import shlex
@@ -72,13 +71,16 @@ _TAG = re.compile(r"stage-(\d+)")
 class PipelineWorld:
     """One pipeline output directory under `root`, driven through the real code."""
 
-    def __init__(self, root, handover=False, with_teardown=False):
+    def __init__(self, root, handover=False, with_teardown=False, local_chain=False):
         self.root = root
         self.cwd = os.path.join(root, "cwd")
         os.makedirs(self.cwd)
         self.out = os.path.join(root, "out")
         self.handover = handover
         self.with_teardown = with_teardown
+        self.local_chain = local_chain    # hand-over mode: every submission completes inside run_submit_jobs (local mode)
+        self.handover_marks = []
+        self.chain_results = []
         self.events = []          # the impl-side event log (tuples)
         self.submissions = []     # dicts: config_tag, output, psn
         self.env = dict(GOOD_ENV)
@@ -148,6 +150,11 @@ class PipelineWorld:
             mgr = JobSubmitter.create(config, output=output)
             cluster = Cluster.create(output, mgr.config, pipeline_stage_num=pipeline_stage_num)
             cluster.demote_from_submitter()
+            if self.local_chain:
+                # local mode: submit_jobs runs the jobs and reaches _handle_completion before run_submit_jobs returns
+                out, _psn = self.complete_stage(pipeline_stage_num)
+                self.chain_results.append((pipeline_stage_num, out))
+                return out if isinstance(out, int) else 1
         return self.env["ret"]
 
     def _check_previous_complete(self, what, j):
@@ -185,6 +192,8 @@ class PipelineWorld:
             return world._real_serialize(mgr)
         pm.PipelineManager._serialize = _wrapped_serialize
         JobSubmitter.run_submit_jobs = staticmethod(self._fake_run_submit_jobs)
+        if self.handover:
+            self._install_handover()
         self._old_cwd = os.getcwd()
         os.chdir(self.cwd)
         self._env_backup = {k: os.environ.get(k) for k in ("JADE_PIPELINE_OUTPUT_DIR", "JADE_PIPELINE_STATUS_FILE",
@@ -197,6 +206,9 @@ class PipelineWorld:
         pm = self._pm
         pm.run_command, pm.create_config_from_file, rsj = self._saved
         pm.PipelineManager._serialize = self._real_serialize
+        if self.handover:
+            self._jsm.run_command = self._saved_js_run_command
+            self._Cluster.mark_complete = self._real_mark
         JobSubmitter.run_submit_jobs = rsj
         os.chdir(self._old_cwd)
         for k, v in self._env_backup.items():
@@ -204,8 +216,6 @@ class PipelineWorld:
                 os.environ.pop(k, None)
             else:
                 os.environ[k] = v
-        for h in list(logging.getLogger().handlers):
-            pass
         self._installed = False
         return False
 
@@ -307,30 +317,23 @@ class PipelineWorld:
         return res, after, evs, (type(exc).__name__ if exc is not None else None)
 
     # ---- hand-over ------------------------------------------------------------------------------
-    def complete_stage(self, k, with_results=True):
-        """Run the real JobSubmitter._handle_completion on stage k's submission (as the last submitter of that
-        submission would).  Returns (Status value | exception name)."""
+    def _install_handover(self):
         import jade.jobs.job_submitter as jsm
-        from jade.jobs.job_submitter import JobSubmitter
         from jade.jobs.cluster import Cluster
-        from jade.jobs.results_aggregator import ResultsAggregator
-        from jade.result import Result
         import jade.cli.pipeline as cli
-        output = os.path.join(self.out, "output-stage%d" % k)
-        if not os.path.exists(os.path.join(output, "results.csv")):
-            ResultsAggregator.create(output)
-            if with_results:
-                ResultsAggregator.append(output, Result("job-stage-%d" % k, 0, "finished", 1.0, 0.0))
-                ResultsAggregator.load(output).process_results() if hasattr(ResultsAggregator, "process_results") else None
-        mgr = JobSubmitter.load(output)
-        cluster, _ = Cluster.deserialize(output, try_promote_to_submitter=True, deserialize_jobs=True)
         world = self
-        psn = cluster.config.pipeline_stage_num
+        self._jsm, self._Cluster = jsm, Cluster
+        self._saved_js_run_command = jsm.run_command
+        self._real_mark = real_mark = Cluster.mark_complete
+
+        def stage_of(path):
+            m = re.search(r"output-stage(\d+)$", str(path).rstrip("/"))
+            return int(m.group(1)) if m else -1
 
         def fake_run_command(cmd, *a, **kw):
             argv = shlex.split(cmd)
             if argv[:3] == ["jade", "pipeline", "submit-next-stage"]:
-                opts = dict(a[2:].split("=", 1) for a in argv[4:] if a.startswith("--") and "=" in a)
+                opts = dict(x[2:].split("=", 1) for x in argv[4:] if x.startswith("--") and "=" in x)
                 try:
                     world._pending = (int(opts["stage-num"]), int(opts["return-code"]))
                 except (KeyError, ValueError):
@@ -343,26 +346,37 @@ class PipelineWorld:
                 except BaseException:
                     return 1
             if argv[:1] == ["teardown"]:
-                world.handover_marks.append(("teardown", k, os.path.exists(os.path.join(output, "results.json"))))
+                out = (kw.get("env") or {}).get("JADE_RUNTIME_OUTPUT", "")
+                world.handover_marks.append(("teardown", stage_of(out), os.path.exists(os.path.join(out, "results.json"))))
                 return 0
             raise RuntimeError("unexpected command in _handle_completion: %r" % cmd)
 
-        real_mark = Cluster.mark_complete
-
         def mark(selfc):
             r = real_mark(selfc)
-            world.events.append(("mark", selfc.config.pipeline_stage_num if selfc.config.pipeline_stage_num is not None else -1))
-            world.handover_marks.append(("mark_complete", k, True))
+            psn = selfc.config.pipeline_stage_num
+            world.events.append(("mark", psn if psn is not None else -1))
+            world.handover_marks.append(("mark_complete", stage_of(selfc.config.path), True))
             return r
 
-        if not hasattr(self, "handover_marks"):
-            self.handover_marks = []
-        saved = jsm.run_command
         jsm.run_command = fake_run_command
         Cluster.mark_complete = mark
+
+    def complete_stage(self, k, with_results=True):
+        """Run the real JobSubmitter._handle_completion on stage k's submission (as the last submitter of that
+        submission would).  Returns (Status value | exception name, pipeline_stage_num of the submission)."""
+        from jade.jobs.job_submitter import JobSubmitter
+        from jade.jobs.cluster import Cluster
+        from jade.jobs.results_aggregator import ResultsAggregator
+        from jade.result import Result
+        output = os.path.join(self.out, "output-stage%d" % k)
+        if not os.path.exists(os.path.join(output, "results.csv")):
+            ResultsAggregator.create(output)
+            if with_results:
+                ResultsAggregator.append(output, Result("job-stage-%d" % k, 0, "finished", 1.0, 0.0))
+        mgr = JobSubmitter.load(output)
+        cluster, _ = Cluster.deserialize(output, try_promote_to_submitter=True, deserialize_jobs=True)
+        psn = cluster.config.pipeline_stage_num
         sink = io.StringIO()
-        n_ev = len(self.events)
-        state_before = self.read_state()
         try:
             with contextlib.redirect_stdout(sink), contextlib.redirect_stderr(sink):
                 res = mgr._handle_completion(cluster)
@@ -370,8 +384,6 @@ class PipelineWorld:
         except BaseException as e:
             out = type(e).__name__
         finally:
-            jsm.run_command = saved
-            Cluster.mark_complete = real_mark
             try:
                 cluster.demote_from_submitter()
             except BaseException:
@@ -381,7 +393,6 @@ class PipelineWorld:
     def resubmit_stage(self, k):
         """What `jade resubmit-jobs` does to the cluster state of a completed submission (all jobs)."""
         from jade.jobs.cluster import Cluster
-        from jade.jobs.results_aggregator import ResultsAggregator
         output = os.path.join(self.out, "output-stage%d" % k)
         cluster, promoted = Cluster.deserialize(output, try_promote_to_submitter=True, deserialize_jobs=True)
         names = {j.name for j in cluster.iter_jobs()}
